@@ -579,11 +579,17 @@ func lsFamilies(c *eng.Ctx, sub string, run func(lsCase, *eng.Ctx) *eng.Fail, re
 
 func zeroNear(int) []int { return []int{0} }
 
+var golombChunkFn = eng.Reg("C03.golomb-writer", func(a chunkCase) *eng.Fail { return chunkFn(a) })
+
 func c03(c *eng.Ctx) {
 	c.Rule("E1: full products: all images <= 3x3 at P=2, all 2x2 at P=4, all <= 5-6 samples at P=3, every P in 2..16 with every image of <= 6 samples (and 1xn/nx1, n<=7/8) over {0,1,MAX-1,MAX}, 3-component (ILV 2) images over the same alphabets; every sequence of <= 3 macro-ops wrapped into widths {1,2,3,8,70}. distinct = distinct streams; non-trivial = the stream contains >= 1 run interruption or >= 1 LIMIT escape code (measured by the reference decoder on the same stream)")
 	c.Assume("samples occupy the low P bits of the container")
 	lsRunBlocks(c, "C03.roundtrip", lsBlocksLossless(c), lsLossless, lsLosslessFn, "small-images", "full product of contents over the block alphabet")
 	lsFamilies(c, "C03.roundtrip", lsLossless, lsLosslessFn, zeroNear)
+	// the Golomb bit writer at every accumulator fill level (component level; shared with C16)
+	gb := c.Evals()
+	chunkSpace(c, "C03.golomb-writer", 1, 2, golombChunkFn)
+	c.Subspace("golomb-writer-chunked", c.Evals()-gb, c.Thorough(), "GolombWriter: "+chunkSpaceDesc)
 	lsMacro(c, "C03.roundtrip", lsLossless, lsLosslessFn, zeroNear)
 	c.Sample(map[string]any{"W": 2, "H": 1, "C": 1, "P": 10, "S": []int{1022, 1023}})
 	c.Sample(map[string]any{"W": 3, "H": 3, "C": 1, "P": 2, "S": []int{0, 3, 0, 3, 0, 3, 3, 3, 0}})
